@@ -11,6 +11,7 @@ package vsched
 
 import (
 	"fmt"
+	"io"
 	"runtime"
 	"sort"
 	"strings"
@@ -69,6 +70,7 @@ type Thread struct {
 	pend pending
 	done bool
 	site string // where the thread was parked when the execution was torn down
+	psite string // tracing only: where the pending operation was issued
 }
 
 // Point is one choice point of an execution.
@@ -118,6 +120,7 @@ type Sched struct {
 	visit    func(key uint64, preempts int) bool
 	maxSteps int
 	diverged string
+	trace    io.Writer
 }
 
 // S is the active scheduler; nil means pass-through mode.
@@ -176,6 +179,9 @@ func point(p pending) *Thread {
 		runtime.Goexit()
 	}
 	t.pend = p
+	if s.trace != nil {
+		t.psite = librarySite(3)
+	}
 	s.toSched <- t
 	<-t.wake
 	if s.abort {
@@ -322,11 +328,12 @@ type Config struct {
 	Prefix   []int
 	MaxSteps int
 	Visit    func(key uint64, preempts int) bool
+	Trace    io.Writer // if set, every scheduled operation is written out
 }
 
 // Run executes body as the main thread under the scheduler.
 func Run(cfg Config, body func()) (out Outcome, diverged string) {
-	s := &Sched{toSched: make(chan *Thread), prefix: cfg.Prefix, visit: cfg.Visit, maxSteps: cfg.MaxSteps}
+	s := &Sched{toSched: make(chan *Thread), prefix: cfg.Prefix, visit: cfg.Visit, maxSteps: cfg.MaxSteps, trace: cfg.Trace}
 	if s.maxSteps == 0 {
 		s.maxSteps = 200000
 	}
@@ -398,6 +405,13 @@ func (s *Sched) run(body func()) (Outcome, string) {
 		}
 		running = en[c]
 		s.cur = running
+		if s.trace != nil {
+			alt := ""
+			if len(en) > 1 {
+				alt = fmt.Sprintf("   [choice %d of %d]", c, len(en))
+			}
+			fmt.Fprintf(s.trace, "  t%d %-8s %s%s\n", running.id, opNames[running.pend.kind], running.psite, alt)
+		}
 		running.wake <- struct{}{}
 	}
 	// tear down: release every parked thread in abort mode; each records where it was parked
